@@ -540,3 +540,96 @@ def r_order(ctx, f: FunctionInfo, callee_short: str, formal: str, rule="R-ORDER"
                    f"{callee_short}: the subsystem order then depends on set iteration order", r)
         else:
             ctx.ob(rule, f, key, True, f"no unordered collection flows into `{formal}`", c)
+
+
+# ---------------------------------------------------------------------------------------------
+def rename_term(t, mapping):
+    """Rename free names ('n', x) according to mapping."""
+    if isinstance(t, tuple):
+        if len(t) == 2 and t[0] == "n" and t[1] in mapping:
+            return ("n", mapping[t[1]])
+        return tuple(rename_term(x, mapping) if isinstance(x, tuple) else x for x in t)
+    return t
+
+
+def resort(t):
+    """Re-sort commutative operand tuples after a renaming."""
+    if not isinstance(t, tuple) or not t:
+        return t
+    t = tuple(resort(x) if isinstance(x, tuple) else x for x in t)
+    if t[0] in ("+", "*", "and", "or", "^", "&", "|", "set") and len(t) == 2 and isinstance(t[1], tuple):
+        return (t[0], tuple(sorted(t[1], key=tkey)))
+    if t[0] == "cmp" and t[1] in ("==", "!="):
+        a, b = sorted([t[2], t[3]], key=tkey)
+        return ("cmp", t[1], a, b)
+    return t
+
+
+def bool_atoms(t):
+    if t[0] in ("and", "or"):
+        out = []
+        for x in t[1]:
+            for a in bool_atoms(x):
+                if a not in out:
+                    out.append(a)
+        return out
+    if t[0] == "not":
+        return bool_atoms(t[1])
+    return [t]
+
+
+def bool_eval(t, env):
+    if t[0] == "and":
+        return all(bool_eval(x, env) for x in t[1])
+    if t[0] == "or":
+        return any(bool_eval(x, env) for x in t[1])
+    if t[0] == "not":
+        return not bool_eval(t[1], env)
+    if t[0] == "c":
+        return bool(t[1])
+    return env[tkey(t)]
+
+
+def _neg_atom(t):
+    inv = {"<": ">=", "<=": ">", ">": "<=", ">=": "<", "==": "!=", "!=": "==", "in": "notin", "notin": "in",
+           "is": "isnot", "isnot": "is"}
+    if t[0] == "cmp":
+        op, a, b = t[1], t[2], t[3]
+        # canonical orientation is '<' / '<=' only
+        n = inv[op]
+        if n == ">":
+            return ("cmp", "<", b, a)
+        if n == ">=":
+            return ("cmp", "<=", b, a)
+        return ("cmp", n, a, b)
+    return None
+
+
+def bool_equiv(a, b):
+    """Truth-table equivalence of two boolean terms over their comparison / call atoms."""
+    import itertools
+
+    atoms = []
+    for t in bool_atoms(a) + bool_atoms(b):
+        if t not in atoms:
+            atoms.append(t)
+    # fold an atom and its negation into one variable
+    var = {}
+    pol = {}
+    for t in atoms:
+        k = tkey(t)
+        nt = _neg_atom(t)
+        if nt is not None and tkey(nt) in var:
+            var[k] = var[tkey(nt)]
+            pol[k] = not pol[tkey(nt)]
+        else:
+            var[k] = len(set(var.values()))
+            pol[k] = True
+    nv = len(set(var.values()))
+    if nv > 12:
+        return None
+    for bits in itertools.product([False, True], repeat=nv):
+        env = {k: (bits[var[k]] if pol[k] else not bits[var[k]]) for k in var}
+        if bool_eval(a, env) != bool_eval(b, env):
+            return False
+    return True
